@@ -955,7 +955,7 @@ def null_model_dir_sign(W, bin_swaps=5, wei_freq=.1, seed=None):
         i, j = np.where(A_rcur)
         Lij, = np.where(A_rcur.flat)  # weights indices
 
-        P = np.outer(So, Si)
+        P = np.outer(So, Si).astype(float)
 
         if wei_freq == 0:  # get indices of Lij that sort P
             Oind = np.argsort(P.flat[Lij])  # assign corresponding sorted
@@ -1081,7 +1081,7 @@ def null_model_und_sign(W, bin_swaps=5, wei_freq=.1, seed=None):
         i, j = np.where(np.triu(A_rcur))
         Lij, = np.where(np.triu(A_rcur).flat)  # weights indices
 
-        P = np.outer(S, S)
+        P = np.outer(S, S).astype(float)
 
         if wei_freq == 0:  # get indices of Lij that sort P
             Oind = np.argsort(P.flat[Lij])  # assign corresponding sorted
